@@ -691,6 +691,101 @@ func ruleC01Membership(c *Ctx) {
 					helper = call.Common().StaticCallee()
 				}
 			}
+			if helper != nil && strings.HasPrefix(funcName(helper), "slices.ContainsFunc") {
+				// library form: slices.ContainsFunc(list, func(e) bool { return compare.Compare(left, e) == 0 })
+				call := t.V.(*ssa.Call)
+				var pred *ssa.Function
+				var mc *ssa.MakeClosure
+				if len(call.Call.Args) == 2 {
+					if m, isMC := call.Call.Args[1].(*ssa.MakeClosure); isMC {
+						mc, pred = m, m.Fn.(*ssa.Function)
+					}
+				}
+				if pred == nil || len(pred.Params) != 1 {
+					results[v] = verdict{false, "membership is decided by slices.ContainsFunc with a predicate that is not a closure of this function"}
+					continue
+				}
+				leftFV := ""
+				for i, bnd := range mc.Bindings {
+					if i >= len(pred.FreeVars) {
+						continue
+					}
+					if unwrappedField(NewTB().Of(bnd), ep, "Left") {
+						leftFV = pred.FreeVars[i].Name()
+					}
+					// captured by reference: every store to the cell is the unwrapped left
+					if al, isAl := bnd.(*ssa.Alloc); isAl && al.Referrers() != nil {
+						n, good := 0, true
+						for _, r := range *al.Referrers() {
+							if st, isSt := r.(*ssa.Store); isSt && st.Addr == ssa.Value(al) {
+								n++
+								if !unwrappedField(NewTB().Of(st.Val), ep, "Left") {
+									good = false
+								}
+							}
+						}
+						if n > 0 && good {
+							leftFV = pred.FreeVars[i].Name()
+						}
+					}
+				}
+				if leftFV == "" {
+					results[v] = verdict{false, "the membership predicate does not capture the unwrapped left value"}
+					continue
+				}
+				elem := pred.Params[0].Name()
+				isPredCmp := func(x *Term) bool {
+					a, ok := isCompareCall(x)
+					if !ok {
+						return false
+					}
+					l := a[0]
+					if l.Op == "load" && len(l.Args) == 1 {
+						l = l.Args[0]
+					}
+					return l.Op == "freevar" && l.Name == leftFV && strings.Contains(a[1].String(), "p:"+elem)
+				}
+				ptb := BuildTable(pred, []Atom{{Name: "eq", Dom: signDom, Match: isPredCmp}}, true)
+				ver := verdict{true, ""}
+				nEq, nNe := 0, 0
+				for _, pp := range ptb.SuccessPaths() {
+					if len(pp.Ret) == 1 && pp.Ret[0].C == nil && pp.Ret[0].T != nil {
+						// branch-free form: return compare.Compare(left, e) == 0
+						if rt := pp.Ret[0].T; rt.Op == "bin" && rt.Name == "==" && len(rt.Args) == 2 && isPredCmp(rt.Args[0]) && rt.Args[1].String() == "c:0" {
+							nEq++
+							nNe++
+							continue
+						}
+					}
+					if len(pp.Ret) != 1 || pp.Ret[0].C == nil {
+						ver = verdict{false, "the membership predicate's result is not decided by compare.Compare(left, element)"}
+						continue
+					}
+					isEq, has := false, false
+					for k, val := range pp.Asg {
+						if ptb.Seen[k] == "eq" {
+							has, isEq = true, signOf(val) == 0
+						}
+					}
+					if !has || constant.BoolVal(pp.Ret[0].C) != isEq {
+						ver = verdict{false, "the membership predicate is not `compare.Compare(left, element) == 0`"}
+					}
+					if isEq {
+						nEq++
+					} else {
+						nNe++
+					}
+				}
+				if ver.ok && (nEq == 0 || nNe == 0) {
+					ver = verdict{false, "the membership predicate never compares"}
+				}
+				if ver.ok && neg != (v == notInV) {
+					ver = verdict{false, fmt.Sprintf("arm returns %sContainsFunc result", map[bool]string{true: "the negated ", false: "the plain "}[neg])}
+				}
+				c.Fn(c.P.funcKey(pred))
+				results[v] = ver
+				continue
+			}
 			if helper == nil || !c.P.InModule(helper) {
 				results[v] = verdict{false, "membership result is " + p.Ret[0].T.String() + ", which is neither a constant nor a helper's result"}
 				continue
